@@ -170,6 +170,16 @@ func (b Builder) MakeInterfaceFromPtr(tinter Type, ptr Expr) (ret Expr) {
 	return Expr{b.unsafeInterface(rawIntf, tabi, vptr.impl), tinter}
 }
 
+// CopyValue copies the value src points to into the memory dst points to (both
+// pointers to the same type) with a memmove, without materialising it as a
+// first-class LLVM value; meant for large aggregates.
+func (b Builder) CopyValue(dst, src Expr) {
+	prog := b.Prog
+	typ := prog.Elem(src.Type)
+	tabi := b.abiType(typ.raw.Type)
+	b.Call(b.Pkg.rtFunc("Typedmemmove"), tabi, b.Convert(prog.VoidPtr(), dst), b.Convert(prog.VoidPtr(), src))
+}
+
 func (b Builder) valFromData(typ Type, data llvm.Value) Expr {
 	prog := b.Prog
 	if !directIfaceType(typ.raw.Type) {
